@@ -915,7 +915,7 @@ def run(run):
                                           for i in fd for j in fd]
     pairs += fac_pairs
     chunks = [pairs[i::16] for i in range(16)]
-    run.shards(_sys_shard, [(c, 3000 if full else 400, 3 if full else 2)
+    run.shards(_sys_shard, [(c, 3000 if full else 250, 3 if full else 2)
                             for c in chunks if c], watchdog=600)
     ov = [((i, (i + run.seed) % len(DOCS)), (i, (i + 1) % len(DOCS)))
           for i in range(n)]
@@ -943,7 +943,7 @@ def run(run):
         for v in variants:
             partner = i if (i + run.seed) % 3 else (i * 7 + 3) % n
             jobs.append((i, (i + run.seed) % len(DOCS), partner, v))
-    run.shards(_cold_shard, [(jobs[i::16], 100000 if full else 450)
+    run.shards(_cold_shard, [(jobs[i::16], 100000 if full else 300)
                              for i in range(16) if jobs[i::16]],
                watchdog=3000)
     jobs = []
